@@ -127,7 +127,11 @@ func (r *msgReceiver) Read(data []byte) (n int, err error) {
 			if err != nil {
 				return 0, err
 			}
-			r.tl = int(binary.BigEndian.Uint64(trailer))
+			tl := int(binary.BigEndian.Uint64(trailer))
+			if tl < 0 {
+				return 0, errors.New(ErrInvalidMessageSize)
+			}
+			r.tl = tl
 		}
 
 		// no more data in stream but buffer is not enough large to contains the expected value
